@@ -30,6 +30,12 @@ def run(ctx):
         if objs or pics: ctx.nt(repr(case))
         ctx.bump('objects=%d' % len(objs)); ctx.bump('pictures=%d' % len(pics))
         if i < 2: ctx.sample(case)
+        # a sub-document that was attached to another one can still be saved on its own
+        for dsub in h.docs[1:]:
+            bs = io.BytesIO(); dsub.write(bs)
+            sub_objs = [(d.folder[1:] + '/', d.mimetype) for d in h.docs[1:] if d is not dsub and reachable(dsub, d)]
+            sub_pics = [((d.folder[1:] + '/' if d is not dsub else '') + nm, dt, mt) for d, nm, dt, mt in h.picrefs if reachable(dsub, d)]
+            PC.judge_package(ctx, bs.getvalue(), dict(case, standalone_save_of=dsub.folder), dsub.mimetype, sub_objs, sub_pics, what='sub-document saved on its own')
         # second generation: load what was saved, save again
         d2 = load(io.BytesIO(data)); b2 = io.BytesIO(); d2.write(b2)
         PC.corr_package(ctx, d2, b2.getvalue(), 'reloaded')
